@@ -46,7 +46,7 @@ func init() {
 		MinEvals:        floor(200000, 3000000),
 		MinDistinct:     floor(8000, 150000),
 		RequiredCells: func(string) []string {
-			return []string{"mut/bitflip", "mut/delete", "mut/insert", "mut/substitute", "mut/field-rewrite", "mut/sig-other-key", "mut/sig-transplant", "mut/sig-truncated", "mut/sig-zeroed", "mut/sig-junk", "mut/sig-junk-on-rewritten-payload", "mut/sig-extended", "mut/sig-by-did-prefix-colliding-key", "mut/header-swap", "mut/header-swap-resigned", "mut/own-header-variant-resigned", "mut/signed-over-dagjson-text", "mut/genuine-envelope-spliced-into-nonce", "mut/extra-key-resigned", "mut/extra-key-after-tag-resigned", "mut/extra-key-before-tag-resigned", "mut/second-payload-resigned", "mut/other-tag-resigned", "mut/json-field-rewrite", "mut/json-char-edit",
+			return []string{"mut/bitflip", "mut/delete", "mut/insert", "mut/substitute", "mut/field-rewrite", "mut/sig-other-key", "mut/sig-transplant", "mut/sig-truncated", "mut/sig-zeroed", "mut/sig-junk", "mut/sig-junk-on-rewritten-payload", "mut/sig-extended", "mut/sig-by-did-prefix-colliding-key", "mut/header-swap", "mut/header-swap-resigned", "mut/own-header-variant-resigned", "mut/signed-over-dagjson-text", "mut/genuine-envelope-spliced-into-nonce", "mut/extra-key-resigned", "mut/extra-key-after-tag-resigned", "mut/extra-key-before-tag-resigned", "mut/second-payload-resigned", "mut/iss-key-bytes-under-other-multicodec-resigned", "mut/other-tag-resigned", "mut/json-field-rewrite", "mut/json-char-edit",
 				"concurrent", "concurrent/genuine", "concurrent/forged", "concurrent/large", "outcome/rejected", "outcome/accepted-same-content", "base/dlg", "base/inv", "base/ed25519", "base/non-ed25519"}
 		},
 	})
@@ -743,6 +743,26 @@ func runC06(w *mon.W) {
 			if re, err := ref.SignEnvelope(def.iss.Priv, nil, otherTag, b.info.Payload); err == nil {
 				if enc, err := ref.EncodeDagCbor(re); err == nil {
 					c06Offer(w, b, "other-tag-resigned", enc, "dagcbor", decs)
+				}
+			}
+		}
+		// 6b. the issuer's key bytes under ANOTHER key type's multicodec (X25519, secp256k1, P-256,
+		// BLS, RSA), payload re-signed with the issuer's key and announced with the issuer's own
+		// header: the signature is fine, the key is fine, but that DID does not name a key that can
+		// have made it
+		if mine() && def.iss.Alg == "ed25519" {
+			if raw, err := def.iss.Pub.Raw(); err == nil {
+				for _, code := range []uint64{0xec, 0xe7, 0x1200, 0xeb, 0x1205, 0xea} {
+					alt := ref.Str(didString(code, raw))
+					p := withField(b.info.Payload, "iss", &alt)
+					if re, err := ref.SignEnvelope(def.iss.Priv, nil, b.info.Tag, p); err == nil {
+						if enc, err := ref.EncodeDagCbor(re); err == nil {
+							c06Offer(w, b, "iss-key-bytes-under-other-multicodec-resigned", enc, "dagcbor", decs)
+						}
+						if enc, err := ref.EncodeDagJson(re); err == nil {
+							c06Offer(w, b, "iss-key-bytes-under-other-multicodec-resigned", enc, "dagjson", decs)
+						}
+					}
 				}
 			}
 		}
